@@ -9,7 +9,7 @@ TRUST = ('rustc nightly MIR of the working tree is a faithful lowering (dev prof
 CLAIMED = {
     'C06': dict(technique='bounded symbolic execution of the MIR of main with unconstrained i64 literal holes, decided by z3; lock-step reference semantics; native replay of every witness',
                 text='Every path of the real pipeline (lexer, generated parser, evaluator, print, diagnostics) through the arithmetic templates is decided by z3 for ALL pairs of 64-bit operands '
-                     '(operands are solver variables, not samples): result exact or the documented error naming op and operands; op-assign forms on variable / element / property targets; comparisons; ranges up to a stated length.',
+                     '(operands are solver variables, not samples): result exact or the documented error naming op and operands; op-assign forms on variable / element / property targets; comparisons; ranges up to a stated length; integer literals with symbolic digits (1-3 digits, 19- and 20-digit literals at the 2^63 boundary, negated, with `_`, after a binary minus) against their exact 128-bit value. Thorough tier adds Kani/CBMC on the compiled kernel (+ - * and comparisons against an i128 oracle, / % error domain).',
                 design='§4 C06'),
     'C07': dict(technique='bounded symbolic execution of the MIR of main: free boolean conditions and jump-placement selectors, decided by z3; lock-step reference semantics; native replay of every witness',
                 text='All nestings (to the stated depth) of bare block / if / else-if / while / for over list, string, object / call, with break, continue, return or nothing placed by a symbolic selector and every condition a free boolean, are explored path-wise; on each path z3 decides that stdout, exit status and the error class equal the reference semantics for ALL assignments in the path condition.',
@@ -51,7 +51,7 @@ CLAIMED = {
                 text='Literal bodies, escapes, hex digits, bare `$`, and interpolated strings with symbolic UTF-8 text before / between / after two slots drawn from a pool of slot expressions: output equals the byte-level specification (concatenation of pieces and slot values, ->len() = byte count), lexical errors are located at the offending character, nothing panics -- for all byte values on each path.',
                 design='§4 C15'),
     'C18': dict(technique='bounded symbolic execution of the MIR of main over symbolic source bytes: scanner-position invariant at every Scanner::loc() call and shift lemma for layout prefixes as z3 formulas decided per path; reference front end on witnesses; native replay',
-                text='(a) For every input up to the byte bound, each (line, col) the scanner hands out equals the true position of the current character (formula over the symbolic bytes: LF, CR, tab, multi-byte characters); (b) syntax errors are located at the offending character / token (reference front end per path witness); (c) a failing tail preceded by symbolic layout bytes, a comment with arbitrary text, a multi-line string or a continuation break reports every position (diagnostic and stack trace) moved by exactly the displacement of the prefix.',
+                text='(a) For every input up to the byte bound, each (line, col) the scanner hands out equals the true position of the current character (formula over the symbolic bytes: LF, CR, tab, multi-byte characters); (b) syntax errors are located at the offending character / token (reference front end per path witness); (c) a failing tail preceded by symbolic layout bytes, a comment with arbitrary text, a multi-line string or a continuation break reports every position (diagnostic and stack trace) moved by exactly the displacement of the prefix; (d) 68 expression / statement contexts for undefined names, operator errors and call errors, at top level and inside a function, report the position the statement prescribes (lock-step reference).',
                 design='§4 C18'),
     'C08': dict(technique='bounded symbolic execution of the real front end (Lexer MIR, LR driver model, generated parser actions MIR) on operator sequences with symbolic operator selectors; AST compared with the tier-rule reference parser; parenthesisation laws; native evaluation',
                 text='For operand (op operand)^k with every operator position ranging over all 16 binary-operator tokens (k <= 2 exhaustive, k = 3 over a tier-covering subset in quick / all in thorough) and four operand sets incl. negative literals and every postfix form: the AST the generated parser builds (grouping, operator variant, operand order, operator position) equals the tree of the tier rule; wrapping any group in parentheses and re-parsing the minimal print-out give the same tree.',
@@ -60,13 +60,13 @@ CLAIMED = {
                 text='A line break (with symbolic spaces / tabs / CRs and comments around it) after each of the 25 continuation tokens lexes as no break, after each of 27 other tokens as `;`; symbolic whitespace, comment and terminator holes at token gaps of repository scripts leave the token stream unchanged; digit strings with and without `_` and an ASCII character vs its \\xHH escape give equal payloads (solver-checked terms).',
                 design='§4 C09'),
     'C01': dict(technique='bounded symbolic execution of the MIR of main on compositions of every ordered pair of documented constructs with a symbolic integer routed across the boundary, decided by z3; lock-step complete reference semantics; native replay',
-                text='Bounded compositional claim: 14 documented constructs (operators, block, if, while, for, function, closure, list, object, string/interpolation, destructuring, spread, this, type functions) singly, in sampled (quick) / all (thorough) ordered pairs and sampled triples, each routing one unconstrained symbolic i64 inwards and outwards (values, overflow errors with stack traces, break/continue): stdout, exit status and error class equal the complete reference semantics on every path. Depth beyond the bound is outside the claim.',
+                text='Bounded compositional claim: 14 documented constructs (operators, block, if, while, for, function, closure, list, object, string/interpolation, destructuring, spread, this, type functions) singly, in sampled (quick) / all (thorough) ordered pairs and sampled triples, each routing one unconstrained symbolic i64 inwards and outwards (values, overflow errors with stack traces, break/continue), plus generated programs over the whole feature set (kind-tracking grammar, tracing calls, identity observations; symbolic leaves; at most 2^7 paths each): stdout, exit status and error class equal the complete reference semantics on every path. Depth beyond the bound is outside the claim.',
                 design='§4 C01'),
     'C02': dict(technique='bounded symbolic execution of the MIR of main: every reachable MIR assert / modelled std panic / step-budget exhaustion on a satisfiable path is a violation (replayed natively, exit 101); union over template families plus alias shapes',
                 text='Panic-freedom and termination of every path of the alias family (same cell on both sides of operators and op-assign, containers inside themselves or their comparand, printed / compared / iterated / spread / destructured), extreme integers in every position, non-ASCII text, and of the arithmetic, sequence, equality, heap and object families (thorough: all families). One open known finding: printing a self-containing value.',
                 design='§4 C02'),
     'C19': dict(technique='bounded symbolic execution of the MIR of main with demonic HashMap/HashSet iteration order and stubbed environment, decided by z3; lock-step reference rendering; structural closure of environment calls over the MIR; native replays under varied environment',
-                text='(a) hash iteration order is a demonic choice: all orders of 3-4 collected keys give the same output; (b) the MIR calls no environment-dependent std function outside {args, current_dir, read_to_string, print, eprint, exit}, the working directory reaches no output, three spellings of the script path differ only in the diagnostic prefix; (c) one depth-4 structure built along 6 histories, aliased vs copied children, scalars and empties print identically in the stated format.',
+                text='(a) hash iteration order is a demonic choice: all orders of 3-4 collected keys give the same output; (b) the MIR calls no environment-dependent std function outside {args, current_dir, read_to_string, print, eprint, exit}, the working directory reaches no output, three spellings of the script path differ only in the diagnostic prefix; (c) one depth-4 structure built along 6 histories, aliased vs copied children (lists and objects), scalars and empties print identically in the stated format; (d) ten scripts whose outcome could depend on an iteration order give byte-identical outcomes over all explored hash orders (decided across paths; confirmed by repeated native runs).',
                 design='§4 C19'),
 }
 NA_REASON = 'check not built yet in this round (DESIGN.md §7 gates); no claim is made'
